@@ -81,6 +81,10 @@ br_rsa_i32_private(unsigned char *x, const br_rsa_private_key *sk)
 	 */
 	br_i32_decode(mp, p, plen);
 	br_i32_decode(mq, q, qlen);
+#ifdef BR_VERIF
+	BR_VERIF_PUBLIC(&mp[0], sizeof mp[0]);
+	BR_VERIF_PUBLIC(&mq[0], sizeof mq[0]);
+#endif
 
 	/*
 	 * Recompute modulus, to compare with the source value.
